@@ -32,6 +32,7 @@ type traw struct {
 	Name bool `json:"name"` // name not empty
 	Sym  int  `json:"sym"`  // the symbol is "k"+denoms[sym]; -1: empty
 	Dec  bool `json:"dec"`  // decimals <= 255
+	Dv   int  `json:"dv,omitempty"` // valid decimals value is 6 + dv (metadata of a contract deployed later; an existing contract keeps its own)
 }
 
 var invalidDenoms = []string{"1x", "a", "", "has space", "x!y"}
@@ -133,6 +134,7 @@ func rawToks(ts []traw) evmutiltypes.AllowedCosmosCoinERC20Tokens {
 		if t.Sym >= 0 {
 			tok.Symbol = "k" + denoms[t.Sym]
 		}
+		tok.Decimals = uint32(6 + t.Dv)
 		if !t.Dec {
 			tok.Decimals = 256
 		}
@@ -903,6 +905,11 @@ func (g *gen) params() op {
 		} else {
 			o.Ts = append(o.Ts, traw{D: d, Name: true, Sym: d, Dec: true})
 		}
+	}
+	if len(o.Ts) > 0 && r.Chance(1, 3) {
+		// the decimals of a listed denom are changed (6 -> 8 / 18 and back): a contract already
+		// deployed for it stays the denom's registered contract
+		o.Ts[r.Intn(len(o.Ts))].Dv = []int{2, 12}[r.Intn(2)]
 	}
 	if !r.Chance(1, 3) {
 		return o
